@@ -394,7 +394,7 @@ class Columns(Widget, WidgetContainerMixin, WidgetContainerListContentsMixin):
             DeprecationWarning,
             stacklevel=2,
         )
-        focus_position = self.focus_position
+        focus_position = self.focus_position if self.contents else 0
         self.contents = [
             # need to grow contents list if widgets is longer
             (new, options)
